@@ -53,6 +53,32 @@ def compare_pair(facts, wf, wts, rf, rts, W=None, min_version=0):
     return res
 
 
+def split_match_on_self(facts, f):
+    """does the function look at the variant of `self` in two separate places (a tag computed by a helper `self.tag()` and a payload
+    `match self`)? The wire language is path-insensitive across the two: it pairs every tag with every payload, so a mismatch found
+    for such a function is not a verdict"""
+    selfv = next((p["pat"]["v"] for p in f.get("params", []) if p.get("self") and (p.get("pat") or {}).get("k") == "Bind"), None)
+    if selfv is None:
+        return False
+
+    def on_self(m, var):
+        e = peel(m.get("e") or {})
+        while isinstance(e, dict) and e.get("k") in ("Ref", "Deref", "Coerce"):
+            e = peel(e["e"])
+        return isinstance(e, dict) and e.get("k") == "Var" and e.get("v") == var
+    n = sum(1 for x in walk(f["body"]) if x.get("k") == "Match" and on_self(x, selfv))
+    for x in walk(f["body"]):
+        if x.get("k") == "Call" and x.get("args"):
+            a0 = peel(x["args"][0])
+            while isinstance(a0, dict) and a0.get("k") in ("Ref", "Deref", "Coerce"):
+                a0 = peel(a0["e"])
+            h = facts.fns.get((x.get("res") or {}).get("fn") or x.get("fn"))
+            if h is not None and h.get("body") and h["crate"] == f["crate"] and isinstance(a0, dict) and a0.get("k") == "Var" and a0.get("v") == selfv:
+                hs = next((p["pat"]["v"] for p in h.get("params", []) if (p.get("pat") or {}).get("k") == "Bind"), None)
+                n += sum(1 for y in walk(h["body"]) if y.get("k") == "Match" and on_self(y, hs))
+    return n >= 2
+
+
 @rule("W1", ["C01", "C07"], floor=85, doc="every Serialize impl's wire language is contained in its Deserialize sibling's, "
       "for every version class and guard assignment")
 def w1(facts, tier):
@@ -93,6 +119,8 @@ def w1(facts, tier):
             if word and any(isinstance(x, tuple) and x[0] in ("BULK", "RAW1") for x in word) and \
                     any(isinstance(x, tuple) and x[0] == "BYTES" for x in rx.symbols(lr)):
                 st = "undecided"   # a raw slice whose length expression the classifier cannot attribute to a type
+            if st == "violation" and split_match_on_self(facts, wf):
+                st = "undecided"   # tag and payload are chosen by two separate matches on self: the pairing is lost in the abstraction
             yield ob(["C01", "C07"], "W1", key, st, where(wf),
                      f"writer {wf['id']} can emit [{rx.show_word(word)}] which reader {rf['id']} does not consume "
                      f"(env {envd}); writer: {rx.show(lw)} ; reader: {rx.show(lr)}",
@@ -220,6 +248,8 @@ def w3(facts, tier):
                     bad = bad or (v, gk, ok2, f"documented word [{rx.show_word(w2_)}] can no longer be produced by the writer", lwn, ls)
         if bad is not None:
             v, gk, ok, msg, lw, ls = bad
+            if ok is False and split_match_on_self(facts, wf):
+                ok = None    # tag and payload chosen by two separate matches on self: the pairing is lost in the abstraction
             yield ob(["C02"], "W3", key, "violation" if ok is False else "undecided", where(wf),
                      f"{wf['id']}: {msg} (version {v}, guards {gk or '-'}); writer: {rx.show(lw)} ; spec: {rx.show(ls)}",
                      writer=wf["id"], version=v, guards=gk)
